@@ -212,7 +212,7 @@ def main():
     for e in kf_fixed:
         if "witness" not in e:
             continue
-        rec = dict(e["witness"], prop=prop, kf_off=False, tier=e["witness"].get("tier", tier))
+        rec = dict(e["witness"], prop=prop, kf_off=False, tier=e["witness"].get("tier", tier), kf_active=sorted(kf_ids))
         path = os.path.join(OUT, "replays", f"{prop}-fixed-{e['id']}.json")
         json.dump(rec, open(path, "w"), indent=1)
         res, err = run_replay(path)
